@@ -182,14 +182,22 @@ func (w *world) lines(shape int, rng *vh.Rng) (string, []map[string]any, []strin
 				rate = 0.5
 				v = math.Ldexp(1, bit) * rate
 			}
-			fmt.Fprintf(&sb, "%s:%s|c|@%s|#%s\n", lk.name, strconv.FormatFloat(v, 'g', -1, 64), strconv.FormatFloat(rate, 'g', -1, 64), lk.written)
+			if rate == 1 { // an unsampled line carries no rate at all
+				fmt.Fprintf(&sb, "%s:%s|c|#%s\n", lk.name, strconv.FormatFloat(v, 'g', -1, 64), lk.written)
+			} else {
+				fmt.Fprintf(&sb, "%s:%s|c|@%s|#%s\n", lk.name, strconv.FormatFloat(v, 'g', -1, 64), strconv.FormatFloat(rate, 'g', -1, 64), lk.written)
+			}
 		case 't', 'h':
 			if w.byVal[s] == nil {
 				w.byVal[s] = map[float64]string{}
 			}
 			w.byVal[s][float64(w.nextID)] = id
 			w.inv[id] = 1 / rate
-			fmt.Fprintf(&sb, "%s:%d|ms|@%v|#%s\n", lk.name, w.nextID, rate, lk.written) // h*: a timer aggregated as a histogram
+			if rate == 1 {
+				fmt.Fprintf(&sb, "%s:%d|ms|#%s\n", lk.name, w.nextID, lk.written)
+			} else {
+				fmt.Fprintf(&sb, "%s:%d|ms|@%v|#%s\n", lk.name, w.nextID, rate, lk.written) // h*: a timer aggregated as a histogram
+			}
 		case 's':
 			w.byMem[fmt.Sprintf("m%d", w.nextID)] = id
 			fmt.Fprintf(&sb, "%s:m%d|s|#%s\n", lk.name, w.nextID, lk.written)
@@ -393,7 +401,7 @@ func runSchedule(t *testing.T, tw *trace.Writer, c *scase, idx int, seed int64, 
 				if k := anyClosed(); k != "" {
 					res.Hit("offer-while-" + k + "-held")
 				}
-				dg := &statsd.Datagram{IP: "10.0.0.9", Msg: []byte(text), Timestamp: gostatsd.Nanotime(time.Now().UnixNano()), DoneFunc: func() {}}
+				dg := &statsd.Datagram{IP: "10.0.0.9", Msg: []byte(text), Timestamp: gostatsd.Nanotime(time.Now().UnixNano() + int64((offered*7)%5-2)*1000), DoneFunc: func() {}} // parsers may hand datagrams on out of receive order: arrival order is not timestamp order
 				go func() {
 					select {
 					case in <- []*statsd.Datagram{dg}:
